@@ -21,6 +21,9 @@ def hx(s):
 
 FS = [0, 1, 9, 10, 999, 1000, 10 ** 6 - 1, 10 ** 9, 5 * 10 ** 14, 10 ** 15 - 1, 123456789012345, 100000000000000, 10 ** 14 - 1,
       333333333333333, 10 ** 12]
+# every number of trailing zeros (0..14) behind non-zero digits: the boundaries of any digit-count shortcut in %E*S / %E*f
+FS += [(123456789123456 // 10 ** k) * 10 ** k + (0 if (123456789123456 // 10 ** k) % 10 else 10 ** k) for k in range(15)]
+FS += [10 ** k for k in range(15)] + [7 * 10 ** k for k in range(15)]
 
 
 def fmt_zones(tier, rng):
@@ -402,6 +405,21 @@ def gen_c18(tier, rng):
         for _ in range(n):
             vals.add(rng.randint(lo2, hi2))
             vals.add(rng.randint(max(lo2, -10**6 * den), min(hi2, 10**6 * den)))
+        star = set()
+        if den > 1:
+            # sub-second parts with every possible number of trailing zeros, both sides of the epoch (%E*S / %E*f)
+            k = 0
+            while 10 ** k < den:
+                for _ in range(2 if tier == "quick" else 20):
+                    r = rng.randint(1, den // 10 ** k - 1) if den // 10 ** k > 1 else 1
+                    if r % 10 == 0:
+                        r += 1
+                    c = rng.choice([0, 1, -1, 86399, -86400, 1700000000, -1700000000]) * den + (r * 10 ** k) % den
+                    if lo2 <= c <= hi2:
+                        star.add(c)
+                k += 1
+        for c in sorted(star):
+            cases.append("tfmt %s %d %s" % (T, c, hx("%E*S|%E*f")))
         for c in sorted(v for v in vals if lo2 <= v <= hi2):
             cases.append("split %s %d" % (T, c))
             cases.append("tconv %s %d" % (T, c))
